@@ -224,6 +224,58 @@ def encObj (vis : List Nat) : List (Key × LVal) → Except EncErr (List (String
       | .ok (ms, vis2) => .ok ((k.name, j) :: ms, vis2)
 end
 
+/-! ### Specification-level companion: the encoder with the `visited` map erased
+
+`encPure` is `encVal` with every mention of `vis` deleted: what the encoder would answer
+if it never compared table identities.  It is not a model of any Go function; the theorems
+`encode_ok_iff` / `encode_eq_pure_of_distinct` (RV/Props/C16.lean) use it to say exactly what
+the identity check adds: nothing, unless some table is reachable twice. -/
+
+
+mutual
+def encPure : LVal → Except EncErr J
+  | .nil => .ok .null
+  | .bool b => .ok (.bool b)
+  | .num n => .ok (.num n)
+  | .str s => .ok (.str s)
+  | .func => .error .type
+  | .tbl _ kvs =>
+    match kvs with
+    | [] => .ok .null
+    | (.int _, _) :: _ =>
+      match checkArrKeys 1 kvs with
+      | some e => .error e
+      | none =>
+        match encArrPure kvs with
+        | .ok js => .ok (.arr js)
+        | .error e => .error e
+    | (.str _, _) :: _ =>
+      if allStrKeys kvs then
+        match encObjPure kvs with
+        | .ok ms => .ok (.obj ms)
+        | .error e => .error e
+      else .error .keys
+    | (.other, _) :: _ => .error .keys
+def encArrPure : List (Key × LVal) → Except EncErr (List J)
+  | [] => .ok []
+  | (_, v) :: r =>
+    match encPure v with
+    | .error e => .error e
+    | .ok j =>
+      match encArrPure r with
+      | .error e => .error e
+      | .ok js => .ok (j :: js)
+def encObjPure : List (Key × LVal) → Except EncErr (List (String × J))
+  | [] => .ok []
+  | (k, v) :: r =>
+    match encPure v with
+    | .error e => .error e
+    | .ok j =>
+      match encObjPure r with
+      | .error e => .error e
+      | .ok ms => .ok ((k.name, j) :: ms)
+end
+
 /-- `luamanager.Encode(value)`: a fresh `visited` map per call. -/
 def encode (l : LVal) : Except EncErr J :=
   match encVal [] (norm l) with
